@@ -54,6 +54,7 @@ inductive Val where
   | none | bool (b : Bool) | int (i : Int) | flt (f : Flt) | str (s : String)
   | enm (s : String)                       -- member of a StrEnum, by value
   | lnil | lcons (h t : Val)               -- list
+  | tup (items : Val)                      -- tuple (items: list spine)
   | set (l : List String)                  -- set[str]; canonical representative: strictly sorted
   | dnil | dcons (k : Key) (v : Val) (rest : Val)        -- dict, insertion order
   | obj (ns name : String) (fields : Val)  -- instance of the model class `ns.name`
@@ -72,6 +73,11 @@ inductive Ty where
   | lit (opts : List String)                 -- Literal['a', 'b']
   | enm (opts : List String)                 -- StrEnum, by member values
   | list (t : Ty)
+  | tupleVar (t : Ty)                        -- tuple[T, ...]
+  | tuple (elems : Ty)                       -- tuple[T1, …, Tn]; elems = `tnil`/`tcons`
+  | tnil | tcons (t : Ty) (rest : Ty)        -- positional element types (their values are list spines)
+  | opaqueTy (what : String)                   -- a field type outside the model: no value of it is `wellTyped`,
+                                             -- so the theorems say nothing about messages that contain one
   | setStr
   | dict (keys : List KeyKind) (v : Ty)
   | union (a b : Ty)                         -- right nested; `T | None` = `union T none`
@@ -156,6 +162,7 @@ def toJ (ord : List String → List String) : Val → J
   | .enm s => .str s
   | .lnil => .anil
   | .lcons h t => .acons (toJ ord h) (toJ ord t)
+  | .tup l => toJ ord l
   | .set l => strArr (ord l)
   | .dnil => .onil
   | .dcons k v rest => J.putFront (keyStr k) (toJ ord v) (toJ ord rest)
@@ -345,6 +352,30 @@ def validate (m : Mode) : Ty → J → R
   | .lit opts, j => vLit opts j
   | .enm opts, j => vEnm m opts j
   | .list t, j => mapArr (validate m.base t) j
+  | .tupleVar t, j =>
+    if m.isLax then
+      match mapArr (validate .lax t) j with
+      | .ok l => .ok (.tup l)
+      | .error e => .error e
+    else .error .unmodelled                 -- strict mode wants a tuple instance
+  | .tuple elems, j =>
+    if m.isLax then
+      match validate .lax elems j with
+      | .ok l => .ok (.tup l)
+      | .error e => .error e
+    else .error .unmodelled
+  | .tnil, j => (match j with
+    | .anil => .ok .lnil
+    | _ => .error .invalid)
+  | .tcons t rest, j => (match j with
+    | .acons h tl =>
+      (match validate .lax t h, validate .lax rest tl with
+       | .ok v, .ok vs => .ok (.lcons v vs)
+       | .error .invalid, _ => .error .invalid
+       | _, .error .invalid => .error .invalid
+       | _, _ => .error .unmodelled)
+    | _ => .error .invalid)
+  | .opaqueTy _, _ => .error .unmodelled
   | .setStr, j => vSetStr m j
   | .dict keys t, j =>
     if keys.contains .str then mapObj (validate m.base t) j else .error .unmodelled
@@ -469,6 +500,10 @@ def wellTyped : Ty → Val → Bool
   | .lit opts, .str s => opts.contains s
   | .enm opts, .enm s => opts.contains s
   | .list t, v => allList (wellTyped t) v
+  | .tupleVar t, .tup l => allList (wellTyped t) l
+  | .tuple elems, .tup l => wellTyped elems l
+  | .tnil, .lnil => true
+  | .tcons t rest, .lcons v vs => wellTyped t v && wellTyped rest vs
   | .setStr, .set l => sortedStrict l
   | .dict keys t, v => allDict keys (wellTyped t) v
   | .union a b, v => wellTyped a v || wellTyped b v
@@ -482,6 +517,7 @@ def jsonSafe : Val → Bool
   | .flt (.fin _ _) => true
   | .flt _ => false
   | .lcons h t => jsonSafe h && jsonSafe t
+  | .tup l => jsonSafe l
   | .dcons (.str _) v rest => jsonSafe v && jsonSafe rest
   | .dcons _ _ _ => false
   | .obj _ _ fields => jsonSafe fields
@@ -542,6 +578,11 @@ def rt : Ty → Bool
   | .int | .nnint | .float | .str | .bool | .none => true
   | .lit _ | .enm _ | .setStr | .fnil => true
   | .list t => !isFieldHead t && rt t
+  | .tupleVar t => !isFieldHead t && rt t
+  | .tuple elems => !isFieldHead elems && rt elems
+  | .tnil => true
+  | .tcons t rest => !isFieldHead t && !isFieldHead rest && rt t && rt rest
+  | .opaqueTy _ => true
   | .dict keys t => keys.contains .str && !isFieldHead t && rt t
   | .union a b => exactOk a && exactOk b && rt a && rt b
   | .model _ _ fields =>
@@ -553,6 +594,9 @@ def rt : Ty → Bool
 /-- every dict in the schema is keyed by `str` only -/
 def strKeysOnly : Ty → Bool
   | .list t => strKeysOnly t
+  | .tupleVar t => strKeysOnly t
+  | .tuple e => strKeysOnly e
+  | .tcons t rest => strKeysOnly t && strKeysOnly rest
   | .dict keys t => keys = [.str] && strKeysOnly t
   | .union a b => strKeysOnly a && strKeysOnly b
   | .model _ _ fields => strKeysOnly fields
@@ -563,11 +607,25 @@ def strKeysOnly : Ty → Bool
 def floatFree : Ty → Bool
   | .float => false
   | .list t => floatFree t
+  | .tupleVar t => floatFree t
+  | .tuple e => floatFree e
+  | .tcons t rest => floatFree t && floatFree rest
   | .dict _ t => floatFree t
   | .union a b => floatFree a && floatFree b
   | .model _ _ fields => floatFree fields
   | .fcons _ t _ rest => floatFree t && floatFree rest
   | _ => true
+
+/-- does the schema contain a field type outside the model? -/
+def hasOpaque : Ty → Bool
+  | .opaqueTy _ => true
+  | .list t | .tupleVar t | .tuple t => hasOpaque t
+  | .tcons t rest => hasOpaque t || hasOpaque rest
+  | .dict _ t => hasOpaque t
+  | .union a b => hasOpaque a || hasOpaque b
+  | .model _ _ fields => hasOpaque fields
+  | .fcons _ t _ rest => hasOpaque t || hasOpaque rest
+  | _ => false
 
 /-- The registry is consistent: the class a message reports (`__module__`, `__qualname__`) resolves,
 through `getattr(namespace, qualname)`, to an entry for the same class with the same fields. -/
